@@ -286,6 +286,13 @@ fn run_case(ctx: &mut Ctx, id: u64) {
     let mut r = ctx.case_rng(id);
     let alphabet: Vec<u8> = (0..gen::ALPHABET as u8).collect();
     let report = |ctx: &mut Ctx, i: usize, f: Fail, ops: &[Op]| {
+        // after make_read_only the property itself promises "reopens read-only with all data
+        // intact": a model mismatch or failing reopen there is a C12 matter
+        let after_mro = ops[..i.min(ops.len())].iter().any(|o| matches!(o, Op::MakeReadOnly));
+        if after_mro && (f.sig.starts_with("obs:") || f.sig.contains("reopen:")) {
+            ctx.violate(format!("after-make_read_only:{}", f.sig), format!("op #{i}: {}", f.detail), json!({"kind":"history","ops":ops::ops_to_json(ops)}));
+            return;
+        }
         if f.sig.starts_with("step:") || f.sig.starts_with("obs:") || f.sig.starts_with("build:") || f.sig.contains("reopen:err") {
             // not a key-hygiene observation: the history itself misbehaved (C01/C02's business)
             ctx.count("scenario_unusable");
